@@ -43,7 +43,7 @@ def shift1d(ctx, rng, idx):
                            mname=str(rng.choice(["euler1d", "euler1d", "nozzle", "shallowwater"])))
         ctx.ev("seam-exception-streams")
     else:
-        s = gen.scenario1d(rng, bc="per", meshkinds=["uni"], ncell=n, mach_max=1.5, ratio=5.0, dkind="smooth" if implicit else None)
+        s = gen.scenario1d(rng, bc="per", meshkinds=["uni"], ncell=n, mach_max=1.5, ratio=5.0, dkind="smooth" if implicit else None, lscale=0.2)
     spec = gen.spec_from_scn(s)
     tw = gen.Spec(spec.mname, spec.mparams, spec.faces, spec.rname, spec.flux, spec.bcL, spec.bcR, [np.roll(p, k) for p in spec.prim], section=(lambda x: 1.0 + 0 * x) if spec.mname == "nozzle" else None)
     spec.section = tw.section
